@@ -56,7 +56,7 @@ Definition op_cli_gen_har (args : list sx) : sx :=
                   match b_read (fun _ => true) bs with
                   | Ok b' => if b_taint b' then unknown_sx else
                       SL [sym "ok"; SZ 1;
-                          SL (map (fun x => SL [SB (bx_url x); SZ (bx_status x); SB (bx_body x)])
+                          SL (map bexchange_sx
                                   (isort (fun a c => bytes_ltb (bx_url a) (bx_url c)) (b_exchanges b')))]
                   | _ => SL [sym "artifact_unreadable"]
                   end
@@ -69,11 +69,27 @@ Definition op_cli_gen_har (args : list sx) : sx :=
   | _ => bad_args
   end.
 
+(* cli_gen_primary ver primary tree : Bundle.Validate = "some exchange has exactly the primary URL" *)
+Definition op_cli_gen_primary (args : list sx) : sx :=
+  match args with
+  | [_; SB pu; SL tree] =>
+      match omap fentry_of_sx tree with
+      | Some t =>
+          match expected_exchanges (s2b "https://example.com/site/") t with
+          | Some xs => if existsb (fun x => bytes_eqb (fst (fst x)) pu) xs then SL [sym "ok"] else SL [sym "refused"]
+          | None => unknown_sx
+          end
+      | None => bad_args
+      end
+  | _ => bad_args
+  end.
+
 Definition dispatch_cli (op : bytes) (args : list sx) : option sx :=
   if bytes_eqb op (s2b "cli_gen_dir") then Some (op_cli_gen_dir args)
   else if bytes_eqb op (s2b "cli_chain") then Some (op_cli_chain args)
   else if bytes_eqb op (s2b "cli_gen_har") then Some (op_cli_gen_har args)
   (* inconsistent key / record size / pre-existing Digest: the tool must refuse *)
   else if bytes_eqb op (s2b "cli_sign_refuse") then Some (SL [sym "refused"])
+  else if bytes_eqb op (s2b "cli_gen_primary") then Some (op_cli_gen_primary args)
   else if bytes_eqb op (s2b "escape_path") then Some (op_escape args)
   else None.
